@@ -131,6 +131,13 @@ def query_all(ctx, ds, tag, hist):
     """Ask every scalar feature object of ds for its summaries (the contracts judge); feature
     objects without the methods are judged here against the same definition."""
     import dclab.definitions as dfn
+    h5 = getattr(ds, "h5file", None)
+    if h5 is not None and ("events" not in h5 or len(h5["events"]) == 0) \
+            and not getattr(ds, "basins", None):
+        # a file without any stored feature and without basins (e.g. the join of inputs that
+        # have no innate feature in common, repacked): there is no summary to report
+        ctx.count("skipped_file_without_features")
+        return
     feats = [f for f in ds.features_loaded if dfn.scalar_feature_exists(f)]
     for f in feats:
         try:
